@@ -1370,3 +1370,13 @@ def generate_parts(seed, index, avoid=(), strict=None, features=None, budget=Non
 def generate(seed, index, avoid=(), strict=None, features=None, budget=None, max_depth=5, label="core"):
     parts, used = generate_parts(seed, index, avoid, strict, features, budget, max_depth, label)
     return render_plain(*parts), used
+
+
+def generate_form(seed, index, form=None, **kw):
+    """`generate`, rendered either as a plain script or as the body of a function `__main` that the script calls
+    (form "main": top-level declarations become function locals, i.e. candidates for frame registers).
+    form None alternates with the index."""
+    parts, used = generate_parts(seed, index, **kw)
+    if form is None:
+        form = "main" if index % 2 else "plain"
+    return (render_main(*parts) if form == "main" else render_plain(*parts)), used
